@@ -75,6 +75,7 @@ type NATSession struct {
 	DestIP     uint32
 	DestPort   uint16
 	_          uint16
+	_          uint32 // alignment hole before the 64-bit members of struct nat_session
 	LastSeen   uint64
 	Created    uint64
 	PacketsOut uint64
@@ -85,6 +86,7 @@ type NATSession struct {
 	Protocol   uint8
 	Flags      uint8
 	IsHairpin  uint8
+	_          [4]byte // tail padding: sizeof(struct nat_session) is 80
 }
 
 // EIMKey is the key for Endpoint-Independent Mapping lookups
@@ -769,8 +771,25 @@ func (m *Manager) GetStats() (*NATStats, error) {
 	var key uint32 = 0
 	var stats NATStats
 
-	if err := m.natStats.Lookup(&key, &stats); err != nil {
+	// nat_stats_map is a per-CPU array: the kernel returns one value per possible CPU.
+	var perCPU []NATStats
+	if err := m.natStats.Lookup(&key, &perCPU); err != nil {
 		return nil, err
+	}
+	for i := range perCPU {
+		stats.PacketsSNAT += perCPU[i].PacketsSNAT
+		stats.PacketsDNAT += perCPU[i].PacketsDNAT
+		stats.PacketsHairpin += perCPU[i].PacketsHairpin
+		stats.PacketsDropped += perCPU[i].PacketsDropped
+		stats.PacketsPassed += perCPU[i].PacketsPassed
+		stats.SessionsCreated += perCPU[i].SessionsCreated
+		stats.SessionsExpired += perCPU[i].SessionsExpired
+		stats.PortExhaustion += perCPU[i].PortExhaustion
+		stats.EIMHits += perCPU[i].EIMHits
+		stats.EIMMisses += perCPU[i].EIMMisses
+		stats.ALGTriggers += perCPU[i].ALGTriggers
+		stats.ConntrackLookups += perCPU[i].ConntrackLookups
+		stats.ConntrackHits += perCPU[i].ConntrackHits
 	}
 
 	return &stats, nil
